@@ -18,5 +18,5 @@ impl Encoder {
 
     impl_encode_rr_u16_u64!(L64, preference, locator_64, rr_l64);
 
-    impl_encode_rr_u16_domain_name!(LP, preference, fqdn, rr_lp);
+    impl_encode_rr_u16_domain_name_uncompressed!(LP, preference, fqdn, rr_lp);
 }
